@@ -1131,7 +1131,7 @@ def _sweeps(run, thorough, bds):
     for n_cond in (2, 3, 5):
         k += 1
         bd.check(orc_exact_rdm, unit_case(k, n_cond, None, 0.0), 'signal-zero', function='make_dataset')
-    if False:  # pending triage: model-rdm-tiny-units
+    if True:   # repaired in /repo 088a0e02 (was pending triage): model-rdm-tiny-units
         # a model RDM whose entries are of the order 1e-14 or smaller (an embeddable RDM in small units): make_signal discards
         # every pivot of the second-moment matrix below the ABSOLUTE threshold 1e-15, the simulated data are (partly) zero
         # (9 of these 12 cases fail on the unchanged tree, the 1e-14 ones only partly; units 1e-12 fail for point sets with one short axis)
